@@ -28,6 +28,7 @@ THEOREMS = [
     "Optyx.Props.C12.denote_substParams",
     "Optyx.Props.C12.grad_substParams",
     "Optyx.Props.C12.param_not_constant",
+    "Optyx.Props.C12.param_has_no_degree",
     "Optyx.Props.C12.jac_call_substParams",
     "Optyx.Props.C12.artefacts_independent_of_store",
     "Optyx.Props.C12.param_refinement_partial",
@@ -78,8 +79,10 @@ def cell_recipes():
 class Case:
     """a model expression that can be rebuilt with Parameters or with Constants holding given values"""
 
-    def __init__(self, tag, kind, seed=None, mk=None, depth=3, vector_nodes=False):
+    def __init__(self, tag, kind, seed=None, mk=None, depth=3, vector_nodes=False, init=(1.5, -0.5), pattern="random"):
         self.tag, self.kind, self.seed, self.mk, self.depth, self.vector_nodes = tag, kind, seed, mk, depth, vector_nodes
+        self.init = tuple(float(v) for v in init)   # parameter values when the model is built (0.0 is Parameter's default)
+        self.pattern = pattern                      # shape of the history: see rand_history
 
     def build(self, values=None):
         """-> (expr, params[list of Parameter] or None)"""
@@ -89,12 +92,14 @@ class Case:
         if self.kind == "cell":
             x, y = Variable("a"), Variable("b")
             if values is None:
-                P, Q = Parameter("p", 1.5), Parameter("q", -0.5)
+                P, Q = Parameter("p", self.init[0]), Parameter("q", self.init[1])
                 return self.mk(P, Q, x, y), [P, Q]
             return self.mk(Constant(values[0]), Constant(values[1]), x, y), None
         r = core.Rng(self.seed)
         U = gen.Universe(r)
         ps = list(U.params)
+        for p_, v_ in zip(ps, self.init):
+            p_.set(v_)
         if values is not None:
             U.params = [Constant(values[0]), Constant(values[1])]
         # the structure must not depend on whether a leaf is a Parameter or a Constant: pre-draw nothing else
@@ -193,17 +198,31 @@ def exponent_base_zero(e, env):
 # ----------------------------------------------------------------------------- expression-level histories
 
 
-def rand_history(rng, vs, n):
+NOT01 = [v for v in PV if v not in (0.0, 1.0)]
+
+
+def rand_history(rng, vs, n, pattern="random"):
+    """`random`: free mix.  `derive-first`: a derivative is compiled and called while the parameters still hold their
+    initial values (0.0 / 1.0 in many cases), then both are set to other values, then everything is observed again.
+    `to01-then-derive`: parameters are first set to 0 / 1, a derivative is compiled, then they move away."""
+    pt = lambda: gen.rand_point(rng, vs)  # noqa: E731
     ops = []
+    if pattern == "derive-first":
+        ops += [(rng.choice(["jac", "hess"]), pt()), (rng.choice(["jac", "hess", "fn"]), pt())]
+        ops += [("set", 0, rng.choice(NOT01)), ("set", 1, rng.choice(NOT01))]
+        ops += [("jac", pt()), ("hess", pt()), ("fn", pt()), ("eval", pt())]
+    elif pattern == "to01-then-derive":
+        ops += [("set", 0, rng.choice([0.0, 1.0])), ("set", 1, rng.choice([0.0, 1.0])), ("jac", pt()), ("hess", pt())]
+        ops += [("set", 0, rng.choice(NOT01)), ("set", 1, rng.choice(NOT01)), ("jac", pt()), ("hess", pt()), ("fn", pt())]
     for _ in range(n):
         r = rng.random()
         if r < 0.35:
             ops.append(("set", rng.randint(0, 1), rng.choice(PV)))
         else:
             kind = rng.choice(["eval", "fn", "jac", "jac", "hess", "fn"])
-            ops.append((kind, gen.rand_point(rng, vs)))
+            ops.append((kind, pt()))
     # make sure something is observed after the last set
-    ops.append((rng.choice(["jac", "fn", "hess"]), gen.rand_point(rng, vs)))
+    ops.append((rng.choice(["jac", "fn", "hess"]), pt()))
     return ops
 
 
@@ -211,7 +230,7 @@ def run_expression_case(case, rng, rep, lean_ok, n_ops):
     """returns (lean line, expected per-op list, meta) or None; appends oracle failures to rep"""
     e, params = case.build(None)
     vs = vars_of(e)
-    ops = rand_history(rng, vs, n_ops)
+    ops = rand_history(rng, vs, n_ops, case.pattern)
     art = Artefacts(e, vs)
     ids = Ids()
     line = None
@@ -248,7 +267,7 @@ def run_expression_case(case, rng, rep, lean_ok, n_ops):
         except Exception as ex:  # noqa: BLE001
             rep.oracle_failures.append({"what": f"{kind} raised {type(ex).__name__}: {str(ex)[:120]}", "case": case.tag,
                                         "kind": case.kind, "seed": case.seed, "depth": case.depth,
-                                        "vector_nodes": case.vector_nodes,
+                                        "vector_nodes": case.vector_nodes, "init": list(case.init),
                                         "history": [list(o[:1]) + ([o[1], o[2]] if o[0] == "set" else [o[1]])
                                                     for o in ops[: len(expected) + 1]]})
             return None
@@ -284,6 +303,7 @@ def run_expression_case(case, rng, rep, lean_ok, n_ops):
             rep.oracle_failures.append({
                 "what": f"{kind} after Parameter.set differs from a fresh model built with Constant(current value)",
                 "case": case.tag, "kind": case.kind, "seed": case.seed, "depth": case.depth, "vector_nodes": case.vector_nodes,
+                "init": list(case.init),
                 "history": [list(o[:1]) + ([o[1], o[2]] if o[0] == "set" else [o[1]]) for o in ops[: len(expected)]],
                 "params_now": cur, "got": vals[:9], "fresh_constant_model": cvals[:9]})
     if lean_ok:
@@ -346,13 +366,13 @@ def problem_recipes():
     ]
 
 
-def build_problem(mk, values):
+def build_problem(mk, values, init=(1.5, -0.5)):
     from optyx import Variable, Parameter, Problem
     from optyx.core.expressions import Constant
 
     x, y = Variable("a", lb=0.0, ub=4.0), Variable("b", lb=-1.0, ub=5.0)
     if values is None:
-        P, Q = Parameter("p", 1.5), Parameter("q", -0.5)
+        P, Q = Parameter("p", init[0]), Parameter("q", init[1])
         params = [P, Q]
     else:
         P, Q = Constant(values[0]), Constant(values[1])
@@ -393,17 +413,21 @@ def run_problem_histories(rng, rep, n_hist, n_ops):
     recipes = problem_recipes()
     for h in range(n_hist):
         tag, mk = recipes[h % len(recipes)]
-        prob, params, _ = build_problem(mk, None)
-        hist = []
+        init = [(1.5, -0.5), (0.0, 1.0), (1.0, 0.0), (0.0, 0.0), (1.0, 1.0)][(h // len(recipes)) % 5]
+        prob, params, _ = build_problem(mk, None, init)
+        hist = [["init", init[0], init[1]]]
         did_set = False
-        for _ in range(n_ops):
-            if rng.random() < 0.45:
-                i, v = rng.randint(0, 1), rng.choice(PV)
+        for k in range(n_ops):
+            # the first operation is a solve (artefacts are compiled while the parameters hold their initial values),
+            # the second and third move both parameters away from 0 / 1
+            forced_set = k in (1, 2)
+            if k != 0 and (forced_set or rng.random() < 0.45):
+                i, v = (k - 1, rng.choice(NOT01)) if forced_set else (rng.randint(0, 1), rng.choice(PV))
                 params[i].set(v)
                 hist.append(["set", i, v])
                 did_set = True
                 continue
-            method = rng.choice(["auto", "SLSQP", "trust-constr", "L-BFGS-B", "linprog"])
+            method = rng.choice(["auto", "SLSQP", "trust-constr", "L-BFGS-B", "linprog"] if k else ["SLSQP", "trust-constr", "auto"])
             hist.append(["solve", method])
             cur = [float(p.value) for p in params]
             rep.evaluations += 1
@@ -502,13 +526,26 @@ def run(ctx) -> core.Report:
                            "non-trivial = observations made after at least one set")
     _c13.clear_lru()
     cases = []
-    for rounds in range(6 if thorough else 2):
+    inits = [(1.5, -0.5), (0.0, 1.0), (1.0, 0.0), (0.0, 0.0), (1.0, 1.0)]
+    for rounds in range(3 if thorough else 1):
         for tag, mk in cell_recipes():
-            cases.append(Case(tag, "cell", mk=mk))
+            for init in inits:
+                cases.append(Case(tag, "cell", mk=mk, init=init, pattern="derive-first"))
+            cases.append(Case(tag, "cell", mk=mk, pattern="to01-then-derive"))
+            cases.append(Case(tag, "cell", mk=mk, init=rng.choice(inits), pattern="random"))
+
+    def rinit():
+        return (rng.choice(PV), rng.choice(PV)) if rng.random() < 0.5 else rng.choice(inits)
+
+    def rpat():
+        return rng.choice(["random", "derive-first", "to01-then-derive"])
+
     for i in range(1200 if thorough else 220):
-        cases.append(Case("rand-scalar", "rand", seed=rng.randint(0, 10**9), depth=rng.randint(1, 4), vector_nodes=False))
+        cases.append(Case("rand-scalar", "rand", seed=rng.randint(0, 10**9), depth=rng.randint(1, 4), vector_nodes=False,
+                          init=rinit(), pattern=rpat()))
     for i in range(600 if thorough else 110):
-        cases.append(Case("rand-vector", "rand", seed=rng.randint(0, 10**9), depth=rng.randint(1, 3), vector_nodes=True))
+        cases.append(Case("rand-vector", "rand", seed=rng.randint(0, 10**9), depth=rng.randint(1, 3), vector_nodes=True,
+                          init=rinit(), pattern=rpat()))
     n_ops = 40 if thorough else 12
     metas = []
     try:
@@ -517,7 +554,7 @@ def run(ctx) -> core.Report:
             if r is not None and r[0] is not None:
                 metas.append(r)
         degree_facts(rng, rep, 400 if thorough else 120)
-        run_problem_histories(rng, rep, 140 if thorough else 28, n_ops)
+        run_problem_histories(rng, rep, 140 if thorough else 35, n_ops)
     finally:
         _c13.clear_lru()
     outs = run_lean_unit([m[0] for m in metas])
@@ -531,7 +568,8 @@ def search(ctx, rep):
     rng = core.Rng(ctx["seed"] + 32452843)
     tmp = core.Report()
     for i in range(3000):
-        c = Case("rand", "rand", seed=rng.randint(0, 10**9), depth=rng.randint(1, 4), vector_nodes=(i % 2 == 0))
+        c = Case("rand", "rand", seed=rng.randint(0, 10**9), depth=rng.randint(1, 4), vector_nodes=(i % 2 == 0),
+                 init=(rng.choice(PV), rng.choice(PV)), pattern=rng.choice(["random", "derive-first", "to01-then-derive"]))
         run_expression_case(c, rng, tmp, lean_ok=False, n_ops=rng.randint(4, 16))
         if tmp.oracle_failures:
             return tmp.oracle_failures[0]
@@ -545,9 +583,13 @@ def replay(payload) -> bool:
     if "problem_history" in f:
         tag = f["recipe"]
         mk = dict(problem_recipes())[tag]
-        prob, params, _ = build_problem(mk, None)
+        hist0 = f["problem_history"]
+        init = tuple(hist0[0][1:3]) if hist0 and hist0[0][0] == "init" else (1.5, -0.5)
+        prob, params, _ = build_problem(mk, None, init)
         ok = True
-        for op in f["problem_history"]:
+        for op in hist0:
+            if op[0] == "init":
+                continue
             if op[0] == "set":
                 params[op[1]].set(op[2])
             else:
@@ -560,10 +602,12 @@ def replay(payload) -> bool:
                 elif s1[0] == "OPTIMAL" and max([abs(s1[1][k] - s2[1][k]) for k in s1[1]] or [0.0]) > 1e-2:
                     ok = False
         return ok
+    init = tuple(f.get("init", (1.5, -0.5)))
     if f.get("kind") == "cell":
-        case = Case(f["case"], "cell", mk=dict(cell_recipes())[f["case"]])
+        case = Case(f["case"], "cell", mk=dict(cell_recipes())[f["case"]], init=init)
     else:
-        case = Case(f["case"], "rand", seed=f["seed"], depth=f.get("depth", 3), vector_nodes=f.get("vector_nodes", False))
+        case = Case(f["case"], "rand", seed=f["seed"], depth=f.get("depth", 3), vector_nodes=f.get("vector_nodes", False),
+                    init=init)
     e, params = case.build(None)
     vs = vars_of(e)
     art = Artefacts(e, vs)
